@@ -15,7 +15,13 @@
    e_formats), the formula text (next_formula / parse_formula, C14), allocation
    (vec![0; len] in fill_buffer, cells.reserve).
    Errors are classes (the check compares classes, never messages): Err 1 = I/O (end of part),
-   Err 1 = WideStr (Utf16.ERR_WIDESTR), Err 2 = CellError. *)
+   Err 1 = WideStr (Utf16.ERR_WIDESTR), Err 2 = CellError, Err 3 = Unrecognized (check_len, a
+   shared-string index outside the table).
+   The model follows /repo after the C06 hardening (commits e31f96c, a869bc8, b7399c9, acf1eed and
+   the SST / wide-string ones): every record body is checked against the fixed fields read from
+   it before they are read.  The index / slice sites themselves are still guarded steps yielding
+   [Panic] here; XlsbRec_proofs.v proves that none of them is reachable any more
+   (no_panic_framing, no_panic_reader, no_panic_sst). *)
 From Calamine Require Import Prelude Range Range_spec RK Utf16 HeaderRow.
 Open Scope N_scope.
 Set Implicit Arguments.
@@ -46,6 +52,17 @@ Record env : Type := mkEnv {
 (* ================= RecordIter ================= *)
 Definition ERR_IO : N := 1.
 Definition ERR_CELL : N := 2.
+Definition ERR_LEN : N := 3.
+
+(* check_len(typ, len, expected): Err(Unrecognized) when the record holds fewer bytes than the
+   fields read from it *)
+Definition check_len (len expected : N) : outcome unit :=
+  if len <? expected then Err ERR_LEN else Ok tt.
+
+(* wide_str after commit "wide string shorter than its length field": a buffer under 4 bytes is
+   an error too (Utf16.wide_str keeps the former panic of read_u32 there, now unreachable) *)
+Definition wide_str_chk (b : list N) : outcome (list N * N) :=
+  if lenN b <? 4 then Err ERR_WIDESTR else wide_str b.
 
 (* read_u8: read_exact of one byte; at the end of the part an UnexpectedEof error *)
 Definition read_u8 (s : list N) : outcome (N * list N) :=
@@ -89,8 +106,9 @@ Fixpoint split_acc (s : list N) (n : N) (acc : list N) {struct s} : option (list
   end.
 Definition split_at (s : list N) (n : N) : option (list N * list N) := split_acc s n [].
 
-(* fill_buffer(&mut buf): the length, then  if buf.len() < len { *buf = vec![0; len] }  and
-   read_exact(&mut buf[..len]).  A longer buffer keeps its tail: (len, new buf, rest of part). *)
+(* fill_buffer(&mut buf): the length, then  if buf.len() < len { buf.clear(); take(len).read_to_end(buf) }
+   (an incomplete read is an UnexpectedEof error) else read_exact(&mut buf[..len]).  A longer
+   buffer keeps its tail: (len, new buf, rest of part). *)
 Definition fill_buffer (s buf : list N) : outcome (N * list N * list N) :=
   do ls <- read_len s;
   match split_at (snd ls) (fst ls) with
@@ -156,28 +174,28 @@ Fixpoint next_skip_blocks (fuel : nat) (rt : N) (bounds : list (N * option N)) (
   end.
 
 (* ================= XlsbCellsReader ================= *)
-(* parse_dimensions(&buf[..16]): (start, end) = ((rwFirst, colFirst), (rwLast, colLast)) *)
+(* parse_dimensions(&buf[..16]): (start, end) = ((rwFirst, colFirst), (rwLast, colLast)); the
+   caller has checked the record length *)
 Definition parse_dims (buf : list N) : outcome (pos * pos) :=
   if lenN buf <? 16 then Panic else
   Ok ((rd 4 0 buf, rd 4 8 buf), (rd 4 4 buf, rd 4 12 buf)).
 
-(* Dimensions::len: (end.0 - start.0 + 1) as u64 * (end.1 - start.1 + 1) as u64, the sums in u32
-   (overflow checks on: panic) *)
-Definition dims_len (d : pos * pos) : outcome N :=
-  do h0 <- sub32 (fst (snd d)) (fst (fst d));
-  do h <- add32 h0 1;
-  do w0 <- sub32 (snd (snd d)) (snd (fst d));
-  do w <- add32 w0 1;
-  Ok (h * w).
+(* Dimensions::len after commit acf1eed: saturating u64 arithmetic, total.  Its value only decides
+   whether worksheet_range_ref reserves capacity; it does not reach the result. *)
+Definition dims_len (d : pos * pos) : N :=
+  let rows := (fst (snd d) + 1) - fst (fst d) in
+  let cols := (snd (snd d) + 1) - snd (fst d) in
+  N.min (rows * cols) U64MAX.
 
 Definition BOUNDS1 : list (N * option N) := [(129, None); (147, None)].
 Definition BOUNDS2 : list (N * option N) :=
   [(133, Some 134); (37, Some 38); (485, None); (390, Some 391)].
 
-(* XlsbCellsReader::new: skip to BrtWsDim (0x94), read the dimensions from the first 16 bytes of
-   the buffer, skip to BrtBeginSheetData (0x91): (dimensions, rest of part) *)
+(* XlsbCellsReader::new: skip to BrtWsDim (0x94), check_len(len, 16), read the dimensions from the
+   first 16 bytes of the buffer, skip to BrtBeginSheetData (0x91): (dimensions, rest of part) *)
 Definition reader_new (fuel : nat) (s : list N) : outcome (pos * pos * list N) :=
   do a <- next_skip_blocks fuel 148 BOUNDS1 s [];
+  do _ <- check_len (fst (fst a)) 16;
   do dims <- parse_dims (snd (fst a));
   do b <- next_skip_blocks fuel 145 BOUNDS2 (snd a) (snd (fst a));
   Ok (dims, snd b).
@@ -230,8 +248,19 @@ Definition xrk_decode (w : N) : rkval :=
 
 Variable en : env.
 
-(* the body of the loop of next_cell after read_type / fill_buffer *)
+(* size of the fixed fields read from the records decoded by next_cell *)
+Definition expected_len (typ : N) : N :=
+  if (typ =? 2) || (typ =? 7) then 12
+  else if (typ =? 3) || (typ =? 11) || (typ =? 4) || (typ =? 10) then 9
+  else if (typ =? 5) || (typ =? 9) then 16
+  else if (typ =? 6) || (typ =? 8) then 8
+  else if typ =? 0 then 4
+  else 0.
+
+(* the body of the loop of next_cell after read_type / fill_buffer: check_len("cell record", len,
+   expected) first (the buffer was cleared, so it holds exactly the len bytes of the record) *)
 Definition record_step (typ : N) (buf : list N) : outcome cstep :=
+  do _ <- check_len (lenN buf) (expected_len typ);
   if typ =? 2 then                                            (* BrtCellRk *)
     if lenN buf <? 12 then Panic else
     Ok (CCell (RVal (rk_wrap (xrk_val (nth 8 buf 0) (nth 9 buf 0) (nth 10 buf 0) (nth 11 buf 0))
@@ -248,13 +277,13 @@ Definition record_step (typ : N) (buf : list N) : outcome cstep :=
     Ok (CCell (RVal (format_excel_f64 (rd 8 8 buf) (cell_fmt (e_formats en) buf) (e_1904 en))))
   else if (typ =? 6) || (typ =? 8) then                       (* BrtCellSt | BrtFmlaString *)
     if lenN buf <? 8 then Panic else
-    do w <- wide_str (skipn 8 buf);
+    do w <- wide_str_chk (skipn 8 buf);
     Ok (CCell (RVal (DString (fst w))))
   else if typ =? 7 then                                       (* BrtCellIsst *)
     if lenN buf <? 12 then Panic else
     match nthN (e_strings en) (rd 4 8 buf) with
     | Some s => Ok (CCell (RShared s))
-    | None => Panic                                           (* self.strings[isst] *)
+    | None => Err ERR_LEN                                     (* self.strings.get(isst).ok_or_else *)
     end
   else if typ =? 0 then                                       (* BrtRowHdr *)
     if lenN buf <? 4 then Panic else Ok (CRow (rd 4 0 buf))
@@ -281,11 +310,12 @@ Fixpoint cells_loop (fuel : nat) (s : list N) (row : N) : outcome (list cellr) :
       end
   end.
 
-(* worksheet_cells_reader + dimensions().len() + the cell loop: the cells in stream order *)
+(* worksheet_cells_reader + dimensions().len() (total, only a capacity hint) + the cell loop:
+   the cells in stream order *)
 Definition sheet_cells (s : list N) : outcome (list cellr) :=
   let fuel := S (length s) in
   do nr <- reader_new fuel s;
-  do _ <- dims_len (fst nr);
+  let _ := dims_len (fst nr) in
   cells_loop fuel (snd nr) 0.
 
 (* Xlsb::worksheet_cells_reader, then XlsbCellsReader::next_cell until it returns None (the
@@ -320,10 +350,11 @@ Fixpoint sst_items (fuel : nat) (count : N) (s buf : list N) : outcome (list (li
   | O => OutOfFuel
   | S f =>
       do a <- next_skip_blocks (S f) 19 [(35, Some 36)] s buf;
+      do _ <- check_len (fst (fst a)) 1;                        (* check_len("BrtSSTItem", len, 1) *)
       match snd (fst a) with
       | [] => Panic                                           (* &buf[1..] on an empty buffer *)
       | _ :: tl =>
-          do w <- wide_str tl;
+          do w <- wide_str_chk tl;
           do more <- sst_items f (count - 1) (snd a) (snd (fst a));
           Ok (fst w :: more)
       end
@@ -336,6 +367,7 @@ Definition read_shared_strings (part : option (list N)) : outcome (list (list N)
   | Some s =>
       let fuel := S (length s) in
       do a <- next_skip_blocks fuel 159 [] s [];                (* BrtBeginSst *)
+      do _ <- check_len (fst (fst a)) 8;                        (* check_len("BrtBeginSst", len, 8) *)
       if lenN (snd (fst a)) <? 8 then Panic else                (* &buf[4..8] *)
       sst_items fuel (rd 4 4 (snd (fst a))) (snd a) (snd (fst a))
   end.
